@@ -276,7 +276,8 @@ class Air(object):
     def _dispatch(self, me):
         """called by the running thread after it changed its own state to wait/done: choose who runs next"""
         nxt = None
-        self._ticks += 1
+        parked = me.state == "wait"     # decided before the baton is passed: the peer may run (and change
+        self._ticks += 1                # me.state back to "run") before this thread executes its next statement
         waiting = [p for p in (self.I, self.T) if p.state == "wait"]
         if self.aborted:
             for p in waiting:
@@ -307,7 +308,7 @@ class Air(object):
         elif nxt is not me:
             nxt.state = "run"
             nxt.sem.release()
-        if me.state == "wait":
+        if parked:
             if nxt is not me:
                 if not me.sem.acquire(timeout=self.stall_s):
                     self.aborted = "stall"
@@ -354,7 +355,7 @@ class Air(object):
                 rx = None
             elif fault == "s":
                 rx = fr.data
-                for old in reversed(self.log[:-1]):
+                for old in reversed(self.log[self.script_base:-1]):
                     if old.dir == fr.dir and old.data != fr.data and old.brty == fr.brty:
                         rx = old.data
                         break
